@@ -60,11 +60,21 @@ def _edit_latencies(raw, cid):
         return raw + b"\n# edited: comment only\n"
     txt = raw.decode("utf-8")
 
+    changed = [0]
+
     def bump(m):
-        return "%s%s" % (m.group(1), float(m.group(2)) + 3.0 * (cid - 1))
+        # the edited file has the SAME LENGTH as the shipped one (with the time stamp kept by set_content this is what
+        # `cp -p` / `rsync -t` of a revised model leaves behind): a latency is bumped only if its text keeps its length
+        old = m.group(2)
+        val = float(old) + 3.0 * (cid - 1)
+        new = str(val) if "." in old else str(int(val))
+        if len(new) != len(old):
+            return m.group(0)
+        changed[0] += 1
+        return m.group(1) + new
 
     out, n = re.subn(r"(\blatency: *)(\d+(?:\.\d+)?)", bump, txt)
-    assert n > 0
+    assert n > 0 and changed[0] > 0
     return out.encode("utf-8")
 
 
@@ -443,6 +453,13 @@ class Sandbox:
         tmp = self.path(t) + ".tmp-edit"
         with open(tmp, "wb") as f:
             f.write(raw)
+        try:
+            # the revision keeps the time stamp of the file it replaces (archives, `cp -p`, `rsync -t`): only the
+            # content tells the two apart
+            st = os.stat(self.path(t))
+            os.utime(tmp, ns=(st.st_atime_ns, st.st_mtime_ns))
+        except OSError:
+            pass
         os.replace(tmp, self.path(t))
 
     def set_writable(self, t, w):
